@@ -109,6 +109,19 @@ def check(ctx):
     acc = [n for n in ast.walk(fsr) if isinstance(n, ast.If) and "len(c) >= len(old_chunks[dim])" in unparse(n.test)]
     ok = len(acc) == 1 and "max(c) <= max(old_chunks[dim])" in unparse(acc[0].test)
     ctx.ob("ALG.split-plan.accept", fsr, "a split step is accepted only if it has at least as many chunks AND no wider chunk than before", ok, "" if ok else "wider intermediate chunks are accepted: the following merge pass can fail (AssertionError / ZeroDivisionError) instead of reaching the requested chunks")
+    # ---------------- round_to never rounds a chunk edge UP (the byte limit is an upper bound)
+    rt_ = model.module("dask/array/core.py").func("round_to") if "model" in dir() else ctx.model.module("dask/array/core.py").func("round_to")
+    small = [r for r in returns(rt_) if any(eqv(e, "c <= s") and pol for e, pol in cfg_of(rt_).facts(r))]
+    ok = len(small) == 1 and eqv(small[0].value, "max(1, int(c))")
+    big = [r for r in returns(rt_) if r not in small]
+    ok = ok and len(big) == 1 and eqv(big[0].value, "c // s * s")
+    ctx.ob("ALG.round-to.floor", rt_, "round_to: max(1, int(c)) for c <= s, else c // s * s -- both truncate", ok, "" if ok else "rounding (instead of truncating) the ideal edge can push a chunk over the byte limit although a smaller chunk fits")
+    # ---------------- the planner's bookkeeping of the largest block follows the chunks it actually adopted
+    fmr = rc.func("find_merge_rechunk")
+    adopt = find("chunks[dim] = c", fmr)
+    upd = find("largest_block_size = largest_block_size * max(c) // largest_width", fmr)
+    ok = len(adopt) == 1 and len(upd) == 1 and control_equivalent(fmr, adopt[0][0], upd[0][0])
+    ctx.ob("PAIR.merge-plan.bookkeeping", fmr, "largest_block_size is updated exactly when the partial merge is adopted (chunks[dim] = c)", ok, "" if ok else "the size estimate moves without the chunks: later merges are rejected/accepted against a wrong size and the planner's own consistency assertion fails for valid targets")
 
 
 VARIANTS = [
